@@ -251,7 +251,7 @@ class _AuthMiddleware:
     guessed at from its message text.
     """
 
-    __slots__ = ("_authenticate", "_exempt_prefixes", "_on_auth_failure", "_www_authenticate")
+    __slots__ = ("_authenticate", "_exempt_paths", "_exempt_prefixes", "_on_auth_failure", "_www_authenticate")
 
     def __init__(
         self,
@@ -259,11 +259,16 @@ class _AuthMiddleware:
         www_authenticate: str | None = None,
         on_auth_failure: Callable[[str | None, str], None] | None = None,
         exempt_prefixes: tuple[str, ...] = (),
+        exempt_paths: tuple[str, ...] = (),
     ) -> None:
         self._authenticate = authenticate
         self._www_authenticate = www_authenticate
         self._on_auth_failure = on_auth_failure
+        # ``exempt_paths`` are matched exactly; ``exempt_prefixes`` match a
+        # whole subtree and must therefore end in "/" -- a bare prefix such as
+        # "/health" would also exempt an RPC method named ``healthcheck``.
         self._exempt_prefixes = exempt_prefixes
+        self._exempt_paths = exempt_paths
 
     def process_request(self, req: falcon.Request, resp: falcon.Response) -> None:
         """Authenticate (if configured) and populate the transport contextvar.
@@ -276,13 +281,17 @@ class _AuthMiddleware:
         CORS preflight ``OPTIONS`` requests and well-known paths
         (``/.well-known/``) are exempt from authentication so that browsers
         can complete the preflight handshake without credentials and
-        clients can discover OAuth metadata before authenticating.  Exempt
-        paths still get transport metadata populated.
+        clients can discover OAuth metadata before authenticating.  The
+        health endpoint is exempt as an exact path only, never as a prefix:
+        ``{prefix}/healthcheck`` or ``{prefix}/health/init`` are ordinary RPC
+        routes and must authenticate.  Exempt paths still get transport
+        metadata populated.
         """
         transport_metadata = _build_transport_metadata(req)
         exempt = (
             req.method == "OPTIONS"
             or req.path.startswith("/.well-known/")
+            or req.path in self._exempt_paths
             or any(req.path.startswith(pfx) for pfx in self._exempt_prefixes)
         )
         if self._authenticate is None or exempt:
